@@ -294,6 +294,11 @@ func main() {
 		}
 		sc = sub
 	}
+	// scalars at which the accumulator and the table entry about to be added are distinct points with the same (or
+	// opposite) y-coordinate - images of each other under the endomorphism
+	endo := mc.EndoWindowScalars()
+	sc = append(sc, endo...)
+	R.Class(cfg+"/endomorphism-related accumulator and table entry", int64(len(endo)))
 	R.Bound("scalar_alphabet", len(sc))
 	mc.Par(len(sc), func(i int) {
 		s := sc[i].V
